@@ -382,6 +382,9 @@ func ClockNow() int64 {
 	return clockNow
 }
 
+// Thorough reports whether the check runs in the thorough tier (larger bounds).
+func Thorough() bool { return os.Getenv("ZZVF_TIER") == "thorough" }
+
 // Fresh returns whether the native twin runs in replay (true) — lets harness code skip
 // executor-only sections natively.
 func Native() bool { return true }
